@@ -12,6 +12,7 @@ package rules
 
 import (
 	"bytes"
+	"encoding/json"
 	"encoding/pem"
 	"fmt"
 	"os"
@@ -633,6 +634,7 @@ func c19IDs(repo rule.Repository, src string) []string {
 // ---- cases ----------------------------------------------------------------
 
 type c19RuleCase struct {
+	CT      string `json:"content_type,omitempty"` // default application/yaml
 	Base    int    `json:"base"`
 	How     string `json:"how"`
 	Text    string `json:"text"`
@@ -860,6 +862,25 @@ func TestVerifC19Rules(t *testing.T) {
 		}
 	}
 
+	// the same through the content types the http endpoint / cloud blob providers hand to ParseRules:
+	// JSON text truncated at every offset, unsupported and missing content types
+	if js, err := json.Marshal(bases[1]); err == nil {
+		step := 1
+		if quick {
+			step = 4
+		}
+
+		for off := 0; off <= len(js); off += step {
+			cases = append(cases, c19RuleCase{CT: "application/json", Base: 1, How: fmt.Sprint("trunc json ", off), Text: string(js[:off])})
+		}
+
+		cases = append(cases,
+			c19RuleCase{CT: "text/plain", Base: 1, How: "content type text/plain", Text: c19Bases[1]},
+			c19RuleCase{CT: "", Base: 1, How: "no content type", Text: c19Bases[1]},
+			c19RuleCase{CT: "", Base: 1, How: "no content type, empty", Text: ""},
+			c19RuleCase{CT: "application/json", Base: 1, How: "yaml as json", Text: c19Bases[1]})
+	}
+
 	nsys := len(cases)
 
 	// random: several mutations at once
@@ -933,7 +954,12 @@ func TestVerifC19Rules(t *testing.T) {
 		)
 
 		psite, pmsg := c19gen.Catch(func() {
-			rs, perr = config2.ParseRules("application/yaml", bytes.NewReader([]byte(c.Text)), false)
+			ct := c.CT
+			if c.How != "no content type" && c.How != "no content type, empty" && ct == "" {
+				ct = "application/yaml"
+			}
+
+			rs, perr = config2.ParseRules(ct, bytes.NewReader([]byte(c.Text)), false)
 		})
 
 		rulesCoq := "PRejected"
@@ -1005,6 +1031,10 @@ func TestVerifC19Rules(t *testing.T) {
 		tags = append(tags, "out="+strings.SplitN(o.Outcome, ":", 2)[0])
 		if i < nsys {
 			tags = append(tags, "systematic")
+		}
+
+		if c.CT != "" || strings.HasPrefix(c.How, "no content type") {
+			tags = append(tags, "content-type="+c.CT)
 		}
 
 		if strings.HasPrefix(c.How, "trunc") {
